@@ -607,7 +607,7 @@ CHECKS['C02']['note'] += ' Known finding F32m (get / set before in / instanceof)
 for _k in ('C01', 'C02', 'C20'):
     CHECKS[_k]['text'] += (" process_layouts (contracts/layouts.py): for buffers of 0..4 pending layout markers (5 in the thorough tier) and EVERY handler table (free choice per rule tuple) "
                            "the handler calls are a contiguous, in-order, repetition-free cover of the buffer, every handler sees the true neighbour texts and the text of the previous fragment of the run, "
-                           "and exactly the handlers' fragments are yielded; which groups are merged is decided per production by the table obligations.")
+                           "the groups are those of leftmost-first normalisation (longest pending run ending in the new marker that the table knows), and exactly the handlers' fragments are yielded.")
 CHECKS['C09']['text'] += (" Round 8 (contracts/smsmall.py): Names.__init__ (empty table, current index 0), Names.__iter__ (the names array lists the names in the order of their indices, for every "
                           "insertion order of up to four names), Book.__init__ and default_book (generated columns counted from 0, source lines / columns from 1: what sourcemap.write's contract assumes of a default book).")
 for _k in ('C11', 'C08'):
